@@ -4,6 +4,7 @@ import (
 	"fmt"
 	"os"
 	"path/filepath"
+	"regexp"
 	"strings"
 )
 
@@ -26,53 +27,81 @@ func filler(n int) []string {
 	return r
 }
 
-type domRule struct{ kind, val string } // domain | suffix | keyword
+// domRule is one line of a domain-set text file: kind = domain | suffix | keyword | regexp.
+type domRule struct {
+	Kind string `json:"kind"`
+	Val  string `json:"val"`
+}
 
 // poolDomSets: named domain sets, with rule counts below / at / above the matcher thresholds
 // (MaxLinearDomains = 16 in domainset; the suffix and keyword matchers have their own).
 var poolDomSets = map[string][]domRule{
-	"ds-exact1":   {{"domain", "a.test"}},
-	"ds-suffix1":  {{"suffix", "a.test"}},
-	"ds-mixed":    {{"domain", "b.test"}, {"suffix", "c.example"}, {"keyword", "ads"}},
+	"ds-exact1":   {{Kind: "domain", Val: "a.test"}},
+	"ds-suffix1":  {{Kind: "suffix", Val: "a.test"}},
+	"ds-mixed":    {{Kind: "domain", Val: "b.test"}, {Kind: "suffix", Val: "c.example"}, {Kind: "keyword", Val: "ads"}},
 	"ds-exact16":  rulesOf("domain", append([]string{"plain"}, filler(15)...)),
 	"ds-exact17":  rulesOf("domain", append([]string{"plain"}, filler(16)...)),
 	"ds-exact40":  rulesOf("domain", append([]string{"x.b.test"}, filler(39)...)),
 	"ds-suffix17": rulesOf("suffix", append([]string{"test"}, filler(16)...)),
 	"ds-suffix5":  rulesOf("suffix", []string{"www.a.test", "b.test", "example", "f00.filler", "nomatch.zz"}),
-	"ds-keyword":  {{"keyword", "www"}, {"keyword", "filler"}},
+	"ds-keyword":  {{Kind: "keyword", Val: "www"}, {Kind: "keyword", Val: "filler"}},
 }
 
 func rulesOf(kind string, vals []string) []domRule {
 	r := make([]domRule, len(vals))
 	for i, v := range vals {
-		r[i] = domRule{kind, v}
+		r[i] = domRule{Kind: kind, Val: v}
 	}
 	return r
 }
 
 var poolDomSetNames = sortedKeys(poolDomSets)
 
-// poolDomSetMatch is the brute-force definition of a rule set (written from the domain-set rule documentation):
-// domain = equal; suffix = equal, or ends with "." + suffix; keyword = substring.
-func poolDomSetMatch(name, d string) bool {
-	for _, r := range poolDomSets[name] {
-		switch r.kind {
+// rulesMatch is the brute-force definition of a rule set, written from the documented meaning of the rule kinds
+// (docs: "domain:" exact name; "suffix:" the name itself or any name ending in "." + suffix; "keyword:" substring;
+// "regexp:" Go regular expression) — independent of package domainset.
+func rulesMatch(rules []domRule, d string) bool {
+	for _, r := range rules {
+		switch r.Kind {
 		case "domain":
-			if d == r.val {
+			if d == r.Val {
 				return true
 			}
 		case "suffix":
-			if d == r.val || strings.HasSuffix(d, "."+r.val) {
+			if d == r.Val || strings.HasSuffix(d, "."+r.Val) {
 				return true
 			}
 		case "keyword":
-			if strings.Contains(d, r.val) {
+			if strings.Contains(d, r.Val) {
+				return true
+			}
+		case "regexp":
+			if regexp.MustCompile(r.Val).MatchString(d) {
 				return true
 			}
 		}
 	}
 	return false
 }
+
+// labelUniverse: names over a small label vocabulary, so that suffix rules extend one another and targets exist that
+// are covered only by the broader rule, sibling subdomains, the bare suffix itself, look-alikes without a label
+// boundary, and names with leading / trailing dots.
+var labelUniverse = []string{
+	"com", "example.com", "www.example.com", "mail.example.com", "a.www.example.com", "b.example.com", "mail.b.example.com",
+	"xexample.com", "wwwexample.com", "example.com.evil", "ads.example.com", "example.net", "www.example.net", "net", "other.org",
+	"example.com.", ".example.com", "com.", "www.example.com.", "a.b", "b", "a.b.a.b",
+}
+
+// suffixRulePool: suffix rules that extend one another (every chain appears in the pool, so a random order gives
+// narrow-before-broad as often as broad-before-narrow).
+var suffixRulePool = []string{
+	"com", "example.com", "www.example.com", "a.www.example.com", "mail.example.com", "b.example.com", "mail.b.example.com",
+	"net", "example.net", "www.example.net", "org", "com.", "example.com.", "b", "a.b", "b.a.b",
+}
+
+var keywordRulePool = []string{"ads", "mail", "exam", "www", ".b", "evil"}
+var regexpRulePool = []string{`^www\.`, `\.net$`, `^[ab]\.`, `example\.(com|net)$`, `^mail\.[a-z]+\.example`, `^$`}
 
 // prefixPool: literal prefixes used in routes (some not in masked form; one IPv6 prefix that covers the
 // IPv4-mapped range, which must NOT match a mapped address after Unmap).
@@ -91,12 +120,21 @@ var poolPfxSets = map[string][]string{
 
 var poolPfxSetNames = sortedKeys(poolPfxSets)
 
+// nestedPrefixPool: prefixes that contain one another (both families), IPv4-mapped forms of IPv4 prefixes, host routes.
+var nestedPrefixPool = []string{
+	"10.0.0.0/8", "10.0.0.0/16", "10.0.0.0/24", "10.0.0.1/32", "10.0.1.0/24", "10.128.0.0/9", "0.0.0.0/1", "1.2.3.4/31", "1.2.3.0/24",
+	"2001:db8::/32", "2001:db8::/48", "2001:db8:0:1::/64", "2001:db8::1/128", "2001::/16", "fd00::/8", "fd00::1/128",
+	"::ffff:10.0.0.0/104", "::ffff:1.2.3.4/128", "::ffff:0:0/96", "::/1",
+}
+
 // ipPool: addresses of requests and resolver answers.
 var ipPool = []string{
 	"10.0.0.1", "10.0.1.1", "10.255.255.255", "11.0.0.0", "1.2.3.4", "1.2.3.5", "192.168.1.1", "172.16.0.1", "8.8.8.8", "127.0.0.1",
 	"200.1.1.1", "0.0.0.0", "255.255.255.255",
 	"2001:db8::1", "2001:db8:0:1::5", "2001:db9::1", "fd00::1", "fe80::1", "::1", "::",
 	"::ffff:10.0.0.1", "::ffff:1.2.3.4", "::ffff:8.8.8.8", "::fffe:10.0.0.1",
+	"10.0.0.2", "10.0.2.1", "10.129.0.1", "1.2.3.200", "127.255.255.255", "128.0.0.1",
+	"2001:db8:1::1", "2001:dead::1", "8000::1", "::ffff:10.0.0.2", "::ffff:10.129.0.1", "::ffff:11.0.0.1",
 }
 
 var userPool = []string{"alice", "bob", "carol", "", "Alice", "dave"}
@@ -120,7 +158,7 @@ func writePool(dir string) error {
 	for n, rules := range poolDomSets {
 		var sb strings.Builder
 		for _, r := range rules {
-			sb.WriteString(r.kind + ":" + r.val + "\n")
+			sb.WriteString(r.Kind + ":" + r.Val + "\n")
 		}
 		if err := os.WriteFile(filepath.Join(dir, n+".txt"), []byte(sb.String()), 0o644); err != nil {
 			return err
